@@ -1,8 +1,10 @@
 (* Iter.v — executable model of src/biguint/iter.rs (the 64-bit-digit arm of cfg_digit!):
    U32Digits, a hand-written state machine {data; next_is_lo; last_hi_is_zero} over a slice
    of u64 digits, and U64Digits, a plain slice iterator.  Definitions only; the refinement
-   to a deque is proved in proofs/IterProofs.v.  Internal sites 930-939. *)
-From BigNum Require Import Base.
+   to a deque is proved in proofs/IterProofs.v.  Internal sites 930-939.
+   The flag tests / flag updates / the `len` formula are read from the source on every run
+   (tools/extractors/iter.py -> [iter_params]); the proofs are generic under [iter_ok]. *)
+From BigNum Require Import Base SrcLit.
 Open Scope Z_scope.
 
 Definition W32 : Z := 2 ^ 32.
@@ -18,88 +20,110 @@ Fixpoint last_opt (l : list Z) : option Z :=
 (** * U32Digits *)
 Record u32it := mk32 { it_data : list Z; it_next_is_lo : bool; it_last_hi_is_zero : bool }.
 
+(** Source-extracted decision points of the 64-bit arm (tools/extractors/iter.py). *)
+Record iter_params := {
+  itp_new_hi_cmp : cmpop;      (* new: `last_hi == 0`                                  -> Ceq *)
+  itp_new_default : bool;      (* new: `.unwrap_or(false)`                             -> false *)
+  itp_new_nil : bool;          (* new: `next_is_lo: true`                              -> true *)
+  itp_next_flip : bool;        (* next: `self.next_is_lo = !next_is_lo` has its `!`    -> true *)
+  itp_next_test_neg : bool;    (* next: `if next_is_lo` is negated                     -> false *)
+  itp_next_end : btest;        (* next: `data.is_empty() && self.last_hi_is_zero`      -> (+, &&, +) *)
+  itp_next_reset : bool;       (* next: `self.last_hi_is_zero = false`                 -> false *)
+  itp_back_flip : bool;        (* next_back: `self.last_hi_is_zero = !last_is_lo`      -> true *)
+  itp_back_test_neg : bool;    (* next_back: `if last_is_lo` is negated                -> false *)
+  itp_back_end : btest;        (* next_back: `data.is_empty() && !self.next_is_lo`     -> (+, &&, !) *)
+  itp_back_reset : bool;       (* next_back: `self.next_is_lo = true`                  -> true *)
+  itp_len_mul : Z;             (* len: `self.data.len() * 2`                           -> 2 *)
+  itp_len_sub1 : bool;         (* len: `- usize::from(..last_hi_is_zero)` is a `-`     -> true *)
+  itp_len_lhz_neg : bool;      (* len: `usize::from(self.last_hi_is_zero)` is negated  -> false *)
+  itp_len_sub2 : bool;         (* len: `- usize::from(..next_is_lo)` is a `-`          -> true *)
+  itp_len_nil_neg : bool;      (* len: `usize::from(!self.next_is_lo)` is negated      -> true *)
+  itp_last_back : bool         (* last: `self.next_back()` (not `self.next()`)         -> true *)
+}.
+
+Definition it_is_empty (l : list Z) : bool := match l with [] => true | _ => false end.
+
 (** U32Digits::new *)
-Definition it_new (data : list Z) : u32it :=
-  mk32 data true
-       (match last_opt data with Some l => hi32 l =? 0 | None => false end).
+Definition it_new (p : iter_params) (data : list Z) : u32it :=
+  mk32 data (itp_new_nil p)
+       (match last_opt data with
+        | Some l => cmp_eval (itp_new_hi_cmp p) (hi32 l) 0
+        | None => itp_new_default p
+        end).
 
 (** Iterator::next *)
-Definition it_next (s : u32it) : option Z * u32it :=
+Definition it_next (p : iter_params) (s : u32it) : option Z * u32it :=
   match it_data s with
   | first :: data =>
       let next_is_lo := it_next_is_lo s in
-      if next_is_lo then
-        (Some (lo32 first), mk32 (it_data s) (negb next_is_lo) (it_last_hi_is_zero s))
-      else
-        match data with
-        | [] => if it_last_hi_is_zero s
-                then (None, mk32 data (negb next_is_lo) false)
-                else (Some (hi32 first), mk32 data (negb next_is_lo) (it_last_hi_is_zero s))
-        | _ => (Some (hi32 first), mk32 data (negb next_is_lo) (it_last_hi_is_zero s))
-        end
+      let nil' := blit (itp_next_flip p) next_is_lo in
+      if blit (itp_next_test_neg p) next_is_lo then
+        (Some (lo32 first), mk32 (it_data s) nil' (it_last_hi_is_zero s))
+      else if bt_eval (itp_next_end p) (it_is_empty data) (it_last_hi_is_zero s)
+      then (None, mk32 data nil' (itp_next_reset p))
+      else (Some (hi32 first), mk32 data nil' (it_last_hi_is_zero s))
   | [] => (None, s)
   end.
 
 (** DoubleEndedIterator::next_back *)
-Definition it_next_back (s : u32it) : option Z * u32it :=
+Definition it_next_back (p : iter_params) (s : u32it) : option Z * u32it :=
   match last_opt (it_data s) with
   | Some last =>
       let data := removelast (it_data s) in
       let last_is_lo := it_last_hi_is_zero s in
-      if last_is_lo then
-        match data with
-        | [] => if negb (it_next_is_lo s)
-                then (None, mk32 data true (negb last_is_lo))
-                else (Some (lo32 last), mk32 data (it_next_is_lo s) (negb last_is_lo))
-        | _ => (Some (lo32 last), mk32 data (it_next_is_lo s) (negb last_is_lo))
-        end
-      else (Some (hi32 last), mk32 (it_data s) (it_next_is_lo s) (negb last_is_lo))
+      let lhz' := blit (itp_back_flip p) last_is_lo in
+      if blit (itp_back_test_neg p) last_is_lo then
+        if bt_eval (itp_back_end p) (it_is_empty data) (it_next_is_lo s)
+        then (None, mk32 data (itp_back_reset p) lhz')
+        else (Some (lo32 last), mk32 data (it_next_is_lo s) lhz')
+      else (Some (hi32 last), mk32 (it_data s) (it_next_is_lo s) lhz')
   | None => (None, s)
   end.
 
 (** ExactSizeIterator::len: `data.len() * 2 - usize::from(last_hi_is_zero) - usize::from(!next_is_lo)`
     (usize subtraction: underflow is a debug panic) *)
-Definition it_len (s : u32it) : outcome Z :=
-  let a := Z.of_nat (length (it_data s)) * 2 in
-  let b := a - (if it_last_hi_is_zero s then 1 else 0) in
+Definition it_len (p : iter_params) (s : u32it) : outcome Z :=
+  let a := Z.of_nat (length (it_data s)) * itp_len_mul p in
+  let b := addsub_lit (itp_len_sub1 p) a (if blit (itp_len_lhz_neg p) (it_last_hi_is_zero s) then 1 else 0) in
   do _ <- assert_ (0 <=? b) (Internal 930);
-  let c := b - (if negb (it_next_is_lo s) then 1 else 0) in
+  let c := addsub_lit (itp_len_sub2 p) b (if blit (itp_len_nil_neg p) (it_next_is_lo s) then 1 else 0) in
   do _ <- assert_ (0 <=? c) (Internal 931);
   Ret c.
 
 (** size_hint = (len, Some(len)) *)
-Definition it_size_hint (s : u32it) : outcome (Z * option Z) :=
-  do n <- it_len s; Ret (n, Some n).
+Definition it_size_hint (p : iter_params) (s : u32it) : outcome (Z * option Z) :=
+  do n <- it_len p s; Ret (n, Some n).
 
 (** `last(mut self) = self.next_back()`, `count(self) = self.len()` *)
-Definition it_last (s : u32it) : option Z := fst (it_next_back s).
-Definition it_count (s : u32it) : outcome Z := it_len s.
+Definition it_last (p : iter_params) (s : u32it) : option Z :=
+  if itp_last_back p then fst (it_next_back p s) else fst (it_next p s).
+Definition it_count (p : iter_params) (s : u32it) : outcome Z := it_len p s.
 
 (** default Iterator::nth: `self.advance_by(n).ok()?; self.next()` where the default
     advance_by calls next() n times and stops at the first None. *)
-Fixpoint it_advance (k : nat) (s : u32it) : bool * u32it :=
+Fixpoint it_advance (p : iter_params) (k : nat) (s : u32it) : bool * u32it :=
   match k with
   | O => (true, s)
-  | S k' => match it_next s with
+  | S k' => match it_next p s with
             | (None, s') => (false, s')
-            | (Some _, s') => it_advance k' s'
+            | (Some _, s') => it_advance p k' s'
             end
   end.
-Definition it_nth (k : nat) (s : u32it) : option Z * u32it :=
-  let '(okk, s') := it_advance k s in
-  if okk then it_next s' else (None, s').
+Definition it_nth (p : iter_params) (k : nat) (s : u32it) : option Z * u32it :=
+  let '(okk, s') := it_advance p k s in
+  if okk then it_next p s' else (None, s').
 
 (** `collect::<Vec<u32>>()`: next() until None (fuel: two items per digit, plus the None) *)
-Fixpoint it_collect_fuel (f : nat) (s : u32it) : outcome (list Z) :=
+Fixpoint it_collect_fuel (p : iter_params) (f : nat) (s : u32it) : outcome (list Z) :=
   match f with
   | O => OutOfFuel
-  | S f' => match it_next s with
+  | S f' => match it_next p s with
             | (None, _) => Ret []
-            | (Some x, s') => do r <- it_collect_fuel f' s'; Ret (x :: r)
+            | (Some x, s') => do r <- it_collect_fuel p f' s'; Ret (x :: r)
             end
   end.
-Definition it_collect (s : u32it) : outcome (list Z) :=
-  it_collect_fuel (2 * length (it_data s) + 1) s.
+Definition it_collect (p : iter_params) (s : u32it) : outcome (list Z) :=
+  it_collect_fuel p (2 * length (it_data s) + 1) s.
 
 (** * Call scripts (any interleaving of calls on one iterator) *)
 Inductive call := CNext | CBack | CLen | CHint | CNth (k : nat) | CLast | CCount.
@@ -111,24 +135,24 @@ Inductive obs :=
 
 (** run a script; [last] and [count] consume the iterator and end the script; a panic ends
     it as well. *)
-Fixpoint it_run (cs : list call) (s : u32it) : list obs :=
+Fixpoint it_run (p : iter_params) (cs : list call) (s : u32it) : list obs :=
   match cs with
   | [] => []
-  | CNext :: r => let '(x, s') := it_next s in OItem x :: it_run r s'
-  | CBack :: r => let '(x, s') := it_next_back s in OItem x :: it_run r s'
-  | CNth k :: r => let '(x, s') := it_nth k s in OItem x :: it_run r s'
-  | CLen :: r => match it_len s with
-                 | Ret n => OLen n :: it_run r s
+  | CNext :: r => let '(x, s') := it_next p s in OItem x :: it_run p r s'
+  | CBack :: r => let '(x, s') := it_next_back p s in OItem x :: it_run p r s'
+  | CNth k :: r => let '(x, s') := it_nth p k s in OItem x :: it_run p r s'
+  | CLen :: r => match it_len p s with
+                 | Ret n => OLen n :: it_run p r s
                  | Panic k => [OPanic k]
                  | OutOfFuel => [OPanic (Internal 939)]
                  end
-  | CHint :: r => match it_size_hint s with
-                  | Ret (lo, hi) => OHint lo hi :: it_run r s
+  | CHint :: r => match it_size_hint p s with
+                  | Ret (lo, hi) => OHint lo hi :: it_run p r s
                   | Panic k => [OPanic k]
                   | OutOfFuel => [OPanic (Internal 939)]
                   end
-  | CLast :: _ => [OItem (it_last s)]
-  | CCount :: _ => match it_count s with
+  | CLast :: _ => [OItem (it_last p s)]
+  | CCount :: _ => match it_count p s with
                    | Ret n => [OLen n]
                    | Panic k => [OPanic k]
                    | OutOfFuel => [OPanic (Internal 939)]
